@@ -412,8 +412,31 @@ func (fx *FX) labelCallInstr(ci ssa.CallInstruction, get func(ssa.Value) label, 
 		return
 	}
 	if v != nil {
-		set(v, argJoin())
+		l := argJoin()
+		if fx.readsGlobalState(c) {
+			// the result of an unmodelled external call on (the address of) a package-level variable — an atomic
+			// pointer, a sync.Map, a cache — is of unknown provenance: it may hold anything the program stored there
+			// earlier, including a code that was accepted, i.e. the expected code (seed C09-h). Conservatively mac.
+			l = l.join(label{mac: true})
+			setMem(v, l)
+		}
+		set(v, l)
 	}
+}
+
+// readsGlobalState: a call to a function outside the unit that receives the address of a package-level variable.
+func (fx *FX) readsGlobalState(c *ssa.CallCommon) bool {
+	if callee := c.StaticCallee(); callee != nil && fx.u.internal(callee) {
+		return false
+	}
+	for _, a := range c.Args {
+		if _, isG := rootOf(a).(*ssa.Global); isG {
+			if _, isP := a.Type().Underlying().(*types.Pointer); isP {
+				return true
+			}
+		}
+	}
+	return false
 }
 
 // ---------------------------------------------------------------------------
